@@ -337,10 +337,20 @@ fn create_doc_for_if_else_customized_flattened(
       if i == 0 { NO_COMMENT_REFERENCE } else { comments },
       condition,
     ));
-    documents.push(create_doc_for_block(heap, comment_store, force_expanded, e1));
+    documents.push(create_opt_preceding_comment_doc(
+      heap,
+      comment_store,
+      e1.common.associated_comments,
+      create_doc_for_block(heap, comment_store, force_expanded, e1),
+    ));
     documents.push(Document::Text(" else "));
   }
-  documents.push(create_doc_for_block(heap, comment_store, force_expanded, final_else));
+  documents.push(create_opt_preceding_comment_doc(
+    heap,
+    comment_store,
+    final_else.common.associated_comments,
+    create_doc_for_block(heap, comment_store, force_expanded, final_else),
+  ));
   Document::concat(documents)
 }
 
